@@ -134,6 +134,27 @@ def catalogue(rng, tier):
     return out
 
 
+def mk_wide_mul(name, r, o):
+    """static_integer<64> * static_integer<64>: the 128-digit product needs multi-word (wide_integer) storage"""
+    T = SI(64, r, o)
+    body = ("    auto p = verif::mk<%s>(a) * verif::mk<%s>(b);\n    auto w = cnl::unwrap(p);\n"
+            "    out[0] = static_cast<std::uint64_t>(w); out[1] = static_cast<std::uint64_t>(w >> 64);\n"
+            "    out[2] = (p > 0) ? 1 : 0; out[3] = cnl::digits_v<decltype(p)>;\n    return 0;") % (T, T)
+    args = [("a", "u64"), ("b", "u64"), Arg("out", "u64", "arr", n=4, out=True, init="uninit")]
+
+    def claims(env, path):
+        if path.kind != "RET":
+            return [("unexpected-outcome", path.kind == "UB")] if path.kind != "UB" else []
+        a, b = env.a["a"], env.a["b"]
+        o_ = env.out(path, "out")
+        prod = a * b
+        return [("exact-128-digit-product", X.eq(o_[0] + o_[1] * (1 << 64), prod)),
+                ("sign-of-product", X.eq(o_[2], X.ite(prod > 0, 1, 0))), ("result-digits", X.eq(o_[3], 128))]
+    return Kernel(name, args, "i32", body, mode="int", W=None, claims=claims, unwind=60, timeout=25,
+                  desc="static_integer<64> * static_integer<64> (multi-word 128-digit product) [%s,%s]" % (r, o),
+                  tags={"shape": "si_mul_wide", "r": r, "o": o})
+
+
 def kernels(opts):
     tier = opts["tier"]
     rng = random.Random("c11/%s/%s" % (opts["seed"], tier))
@@ -185,4 +206,7 @@ def kernels(opts):
             continue
         ks.append(mk(n, c["shape"], c["args"], c["body"], c["exact"], c["pre"], c["r"], c["o"], c["Dres"], views=views,
                      desc=c["desc"], splits=c.get("splits"), tags=c.get("tags")))
+    ks.append(mk_wide_mul("K%d" % len(ks), "nearest", "sat"))
+    if tier != "quick":
+        ks.append(mk_wide_mul("K%d" % len(ks), "native", "thr"))
     return ks
